@@ -3,10 +3,11 @@
    positioning speed and refuses a path that already has points or a position without three entries; end closes the shutter at the
    last point and returns to the first point with speed_closed.  These are the clauses "ending a path returns to its first point with
    the shutter closed" (C04) and the start / end of every marker figure (C14: the hand-given lp_start / lp_end of MkState.v). *)
-From Coq Require Import List Bool ZArith QArith Lia.
+From Coq Require Import List Bool ZArith QArith Lia String Ascii.
 Import ListNotations.
 From Femto Require Import Path.Laser.
 From FemtoTie Require Import PyPrelude LbState SrcLb.
+Local Open Scope list_scope.
 
 Definition posb (v : Q) : bool := negb (Qle_bool v 0).
 Definition dfl (o : option Q) (d : Q) : Q := match o with Some v => v | None => d end.
@@ -17,7 +18,7 @@ Theorem SRC_C04_start : forall c x y z sp, posb (dfl sp (lb_speed_pos c)) = true
   path_of (snd (src_start c (Some [x; y; z]) sp lb_s0)) = start_blk (x, y, z) (dfl sp (lb_speed_pos c)).
 Proof.
   intros c x y z sp H. unfold posb in H. unfold src_start, bind, get. cbn [lb_s0 lb__x py_len length].
-  destruct sp as [v|]; cbn [dfl] in H; cbv zeta; unfold lb_add_path, to_float, tofloat_Q; cbn [forallb]; rewrite H; split; reflexivity.
+  destruct sp as [v|]; cbn [dfl] in H; cbv zeta; unfold lb_add_path, as_vec, asvec_list, to_float, tofloat_Q; cbn [forallb]; rewrite H; split; reflexivity.
 Qed.
 
 (* without a position: [x_init, y_init, z_init], z_init = 0 when it is not set *)
@@ -26,22 +27,22 @@ Theorem SRC_C04_start_default : forall c sp, posb (dfl sp (lb_speed_pos c)) = tr
   path_of (snd (src_start c None sp lb_s0)) = start_blk (lb_x_init c, lb_y_init c, dfl (lb_z_init c) 0) (dfl sp (lb_speed_pos c)).
 Proof.
   intros c sp H. unfold posb in H. unfold src_start, src_init_point, bind, get, ret. cbn [lb_s0 lb__x py_len length].
-  destruct sp as [v|]; cbn [dfl] in H; cbv zeta; unfold lb_add_path, to_float, tofloat_Q; cbn [forallb]; rewrite H;
+  destruct sp as [v|]; cbn [dfl] in H; cbv zeta; unfold lb_add_path, as_vec, asvec_list, to_float, tofloat_Q; cbn [forallb]; rewrite H;
     destruct (lb_z_init c); split; reflexivity.
 Qed.
 
 Theorem SRC_C04_start_refuses : forall c pos sp st,
-  (lb__x st <> [] \/ (exists p, pos = Some p /\ length p <> 3%nat)) ->
+  (lb__x st <> [] \/ (exists p, pos = Some p /\ List.length p <> 3%nat)) ->
   src_start c pos sp st = (Exc EValue, st).
 Proof.
   intros c pos sp st H. unfold src_start, bind, get.
   destruct (lb__x st) as [|a r] eqn:Ex.
-  - destruct H as [H|[p [-> Hp]]]; [congruence|]. cbn [py_len length pyne pyeq pyeq_Z of_int ofint_Z Z.of_nat Z.eqb negb].
+  - destruct H as [H|[p [-> Hp]]]; [congruence|]. cbn [py_len List.length pyne pyeq pyeq_Z of_int ofint_Z Z.of_nat Z.eqb negb].
     assert (E : pyne (py_len p) (of_int 3) = true)
       by (unfold pyne, pyeq, pyeq_Z, py_len, of_int, ofint_Z; apply negb_true_iff, Z.eqb_neq; lia).
     now rewrite E.
   - assert (E : pyne (py_len (a :: r)) (of_int 0) = true)
-      by (unfold pyne, pyeq, pyeq_Z, py_len, of_int, ofint_Z; apply negb_true_iff, Z.eqb_neq; cbn [length]; lia).
+      by (unfold pyne, pyeq, pyeq_Z, py_len, of_int, ofint_Z; apply negb_true_iff, Z.eqb_neq; cbn [List.length]; lia).
     now rewrite E.
 Qed.
 Print Assumptions SRC_C04_start.
@@ -50,7 +51,7 @@ Print Assumptions SRC_C04_start_refuses.
 
 (* ---------------- end ---------------- *)
 Lemma zip5_app : forall x y z f s x' y' z' f' s',
-  length y = length x -> length z = length x -> length f = length x -> length s = length x ->
+  List.length y = List.length x -> List.length z = List.length x -> List.length f = List.length x -> List.length s = List.length x ->
   zip5 (x ++ x') (y ++ y') (z ++ z') (f ++ f') (s ++ s') = zip5 x y z f s ++ zip5 x' y' z' f' s'.
 Proof.
   induction x as [|a x IH]; intros y z f s x' y' z' f' s' Hy Hz Hf Hs.
@@ -65,7 +66,7 @@ Lemma last_shift : forall {X} (l : list X) a d, last (a :: l) d = last l a.
 Proof. intros X [|b l] a d; [reflexivity|]. change (last (a :: b :: l) d) with (last (b :: l) d). apply last_indep_q. Qed.
 
 Lemma zip5_last : forall xr yr zr fr sr a b d e g dd,
-  length yr = length xr -> length zr = length xr -> length fr = length xr -> length sr = length xr ->
+  List.length yr = List.length xr -> List.length zr = List.length xr -> List.length fr = List.length xr -> List.length sr = List.length xr ->
   last (zip5 (a :: xr) (b :: yr) (d :: zr) (e :: fr) (g :: sr)) dd =
   mk (last xr a, last yr b, last zr d) (last fr e) (negb (Qeq_bool (last sr g) 0)).
 Proof.
@@ -80,7 +81,7 @@ Qed.
 
 (* end() on a path with points: closed at the last point (its feed), then closed at the first point with speed_closed *)
 Theorem SRC_C04_end : forall c a b d e g xr yr zr fr sr,
-  length yr = length xr -> length zr = length xr -> length fr = length xr -> length sr = length xr ->
+  List.length yr = List.length xr -> List.length zr = List.length xr -> List.length fr = List.length xr -> List.length sr = List.length xr ->
   posb (last fr e) = true -> posb (lb_speed_closed c) = true ->
   let st := {| lb__x := a :: xr; lb__y := b :: yr; lb__z := d :: zr; lb__f := e :: fr; lb__s := g :: sr |} in
   fst (src_end c st) = Ret tt /\
@@ -91,9 +92,9 @@ Proof.
   unfold src_end, bind, get.
   cbv beta iota zeta delta [lb__x lb__y lb__z lb__f lb__s].
   replace (negb (truthy (py_len (a :: xr)))) with false
-    by (unfold truthy, truthy_Z, py_len; symmetry; apply negb_false_iff, negb_true_iff, Z.eqb_neq; cbn [length]; lia).
+    by (unfold truthy, truthy_Z, py_len; symmetry; apply negb_false_iff, negb_true_iff, Z.eqb_neq; cbn [List.length]; lia).
   unfold ret. cbv beta iota zeta delta [lb__x lb__y lb__z lb__f lb__s].
-  unfold lb_add_path, to_float, tofloat_Q, tofloat_Z, of_int, ofint_Z.
+  unfold lb_add_path, as_vec, asvec_list, to_float, tofloat_Q, tofloat_Z, tofloat_Z_lb, of_int, ofint_Z.
   cbv beta iota zeta delta [lb__x lb__y lb__z lb__f lb__s forallb].
   fold (posb (last fr e)). fold (posb (lb_speed_closed c)). unfold posb. rewrite Hp, Hc.
   cbv beta iota zeta delta [andb fst snd].
@@ -102,7 +103,7 @@ Proof.
   change (b :: yr ++ [last yr b; b]) with ((b :: yr) ++ [last yr b; b]).
   change (d :: zr ++ [last zr d; d]) with ((d :: zr) ++ [last zr d; d]).
   change (e :: fr ++ [last fr e; lb_speed_closed c]) with ((e :: fr) ++ [last fr e; lb_speed_closed c]).
-  rewrite (zip5_app (a :: xr) (b :: yr) (d :: zr) (e :: fr) (g :: sr)) by (cbn [length]; lia).
+  rewrite (zip5_app (a :: xr) (b :: yr) (d :: zr) (e :: fr) (g :: sr)) by (cbn [List.length]; lia).
   f_equal. rewrite zip5_last by assumption. reflexivity.
 Qed.
 
@@ -110,3 +111,85 @@ Theorem SRC_C04_end_needs_a_path : forall c st, lb__x st = [] -> src_end c st = 
 Proof. intros c st H. unfold src_end, bind, get. rewrite H. reflexivity. Qed.
 Print Assumptions SRC_C04_end.
 Print Assumptions SRC_C04_end_needs_a_path.
+
+(* ---------------- linear ---------------- *)
+Lemma shutter_flag : forall sh : Z, negb (Qeq_bool (inject_Z sh) 0) = negb (Z.eqb sh 0).
+Proof.
+  intros sh. f_equal. unfold Qeq_bool, inject_Z. cbn [Qnum Qden]. rewrite Z.mul_1_r. cbn [Z.mul].
+  unfold Zeq_bool. now rewrite Z.eqb_compare.
+Qed.
+
+Definition st_cols (a b d e g : Q) (xr yr zr fr sr : list Q) : lb_st :=
+  {| lb__x := a :: xr; lb__y := b :: yr; lb__z := d :: zr; lb__f := e :: fr; lb__s := g :: sr |}.
+Definition p0_of (a b d e g : Q) : lpt := mk (a, b, d) e (negb (Qeq_bool g 0)).
+
+Section Linear.
+Variables (c : lb_cfg) (a b d e g : Q) (xr yr zr fr sr : list Q).
+Hypothesis (Hy : List.length yr = List.length xr) (Hz : List.length zr = List.length xr) (Hf : List.length fr = List.length xr) (Hs : List.length sr = List.length xr).
+Hypothesis Hw : lb_warp_flag c = false.                      (* no subdivision of straight segments *)
+Let st := st_cols a b d e g xr yr zr fr sr.
+Let lastp := last (path_of st) (p0_of a b d e g).
+
+Lemma lastp_eq : lastp = mk (last xr a, last yr b, last zr d) (last fr e) (negb (Qeq_bool (last sr g) 0)).
+Proof. unfold lastp, st, st_cols, path_of. cbn [lb__x lb__y lb__z lb__f lb__s]. now apply zip5_last. Qed.
+
+(* ABS mode: a missing entry keeps the coordinate, a given one replaces it - exactly the model's point *)
+Theorem SRC_C04_linear_abs : forall dx dy dz mode sh speed,
+  lower mode = "abs"%string -> posb (dfl speed (lb_speed c)) = true ->
+  fst (src_linear c [dx; dy; dz] mode sh speed st) = Ret tt /\
+  path_of (snd (src_linear c [dx; dy; dz] mode sh speed st)) =
+  path_of st ++ [lin lastp (dx, dy, dz) true (negb (Z.eqb sh 0)) (dfl speed (lb_speed c))].
+Proof.
+  intros dx dy dz mode sh speed Hm Hp. unfold posb in Hp. rewrite lastp_eq.
+  unfold src_linear. rewrite Hm. cbn [py_in existsb pyeq pyeq_str String.eqb Ascii.eqb Bool.eqb orb negb py_len List.length pyne pyeq_Z of_int ofint_Z Z.of_nat Pos.of_succ_nat Pos.succ Z.eqb Pos.eqb].
+  replace (is_none speed && is_none (cfg_speed c))%bool with false by (destruct speed; reflexivity).
+  unfold bind, get, ret, st, st_cols. cbv beta iota zeta delta [lb__x lb__y lb__z lb__f lb__s].
+  rewrite Hw. cbn [Bool.eqb orb]. rewrite Bool.orb_true_r.
+  unfold lb_add_path, as_vec, asvec_Q, fill_like, fill_Q, to_float, tofloat_Q, tofloat_Z_lb.
+  cbv beta iota zeta delta [lb__x lb__y lb__z lb__f lb__s forallb].
+  replace (match speed with None => cfg_speed c | Some speed0 => speed0 end) with (dfl speed (lb_speed c)) by (destruct speed; reflexivity).
+  rewrite Hp. cbn [andb fst snd]. split; [reflexivity|].
+  unfold path_of. cbn [lb__x lb__y lb__z lb__f lb__s].
+  change (a :: xr ++ ?l) with ((a :: xr) ++ l). change (b :: yr ++ ?l) with ((b :: yr) ++ l). change (d :: zr ++ ?l) with ((d :: zr) ++ l).
+  change (e :: fr ++ ?l) with ((e :: fr) ++ l). change (g :: sr ++ ?l) with ((g :: sr) ++ l).
+  rewrite (zip5_app (a :: xr) (b :: yr) (d :: zr) (e :: fr) (g :: sr)) by (cbn [List.length]; lia).
+  f_equal. cbn [zip5]. rewrite shutter_flag. unfold lin, oabs. cbn [lx ly lz mk].
+  destruct dx, dy, dz; reflexivity.
+Qed.
+
+Lemma or0_oadd : forall cur o, cur + or0 o == oadd cur o.
+Proof.
+  intros cur [v|]; unfold or0, oadd; [|ring]. unfold truthy, truthy_Q. destruct (Qeq_bool v 0) eqn:E; cbn [negb]; [|reflexivity].
+  apply Qeq_bool_eq in E. rewrite E. reflexivity.
+Qed.
+
+(* INC mode: a missing (or zero) entry adds nothing, a given one is added - the model's point as rational numbers (the source adds an
+   explicit 0 where the model leaves the coordinate alone: another fraction for the same number) *)
+Theorem SRC_C04_linear_inc : forall dx dy dz mode sh speed,
+  lower mode = "inc"%string -> posb (dfl speed (lb_speed c)) = true ->
+  exists p',
+    fst (src_linear c [dx; dy; dz] mode sh speed st) = Ret tt /\
+    path_of (snd (src_linear c [dx; dy; dz] mode sh speed st)) = path_of st ++ [p'] /\
+    let q := lin lastp (dx, dy, dz) false (negb (Z.eqb sh 0)) (dfl speed (lb_speed c)) in
+    lx p' == lx q /\ ly p' == ly q /\ lz p' == lz q /\ lf p' = lf q /\ ls p' = ls q.
+Proof.
+  intros dx dy dz mode sh speed Hm Hp. unfold posb in Hp. rewrite lastp_eq.
+  exists (mk (last xr a + or0 dx, last yr b + or0 dy, last zr d + or0 dz) (dfl speed (lb_speed c)) (negb (Z.eqb sh 0))).
+  unfold src_linear. rewrite Hm. cbn [py_in existsb pyeq pyeq_str String.eqb Ascii.eqb Bool.eqb orb negb py_len List.length pyne pyeq_Z of_int ofint_Z Z.of_nat Pos.of_succ_nat Pos.succ Z.eqb Pos.eqb].
+  replace (is_none speed && is_none (cfg_speed c))%bool with false by (destruct speed; reflexivity).
+  unfold bind, get, ret, st, st_cols. cbv beta iota zeta delta [lb__x lb__y lb__z lb__f lb__s].
+  rewrite Hw. cbn [Bool.eqb orb]. rewrite Bool.orb_true_r.
+  unfold lb_add_path, as_vec, asvec_Q, fill_like, fill_Q, to_float, tofloat_Q, tofloat_Z_lb, pyadd, add_Q.
+  cbv beta iota zeta delta [lb__x lb__y lb__z lb__f lb__s forallb].
+  replace (match speed with None => cfg_speed c | Some speed0 => speed0 end) with (dfl speed (lb_speed c)) by (destruct speed; reflexivity).
+  rewrite Hp. cbn [andb fst snd]. split; [reflexivity|]. split.
+  - unfold path_of. cbn [lb__x lb__y lb__z lb__f lb__s].
+    change (a :: xr ++ ?l) with ((a :: xr) ++ l). change (b :: yr ++ ?l) with ((b :: yr) ++ l). change (d :: zr ++ ?l) with ((d :: zr) ++ l).
+    change (e :: fr ++ ?l) with ((e :: fr) ++ l). change (g :: sr ++ ?l) with ((g :: sr) ++ l).
+    rewrite (zip5_app (a :: xr) (b :: yr) (d :: zr) (e :: fr) (g :: sr)) by (cbn [List.length]; lia).
+    f_equal. cbn [zip5]. now rewrite shutter_flag.
+  - cbv zeta. unfold lin. cbn [lx ly lz lf ls mk]. repeat split; apply or0_oadd.
+Qed.
+End Linear.
+Print Assumptions SRC_C04_linear_abs.
+Print Assumptions SRC_C04_linear_inc.
